@@ -24,6 +24,10 @@ package filtering
 // a binary character / a cut body, or while no temporary file can be created.
 // Monitor: a call that reports an error, and every call whose download cannot
 // produce a complete list, leaves the stored file byte-identical and present.
+//
+// (L, round 6) The HTTP status space of a list download: see
+// zz_verif_C14status_test.go (same test entry).  The set_url matrix of (J)
+// gets sources with the statuses 203 / 204 / 206.
 
 import (
 	"bytes"
@@ -58,15 +62,17 @@ type c14lEv struct {
 // c14lSrc is one source of a list: what the server of its host does.
 type c14lSrc struct {
 	host   string
-	status int  // 0 / 200: the body is served
-	down   bool // the connection cannot be made
-	chunks [][]byte
-	cut    bool // after the chunks the body ends in an error instead of EOF
-	gated  bool
-	yield  bool // free-running: runtime.Gosched() before every chunk
-	ev     chan c14lEv
-	start  chan struct{}
-	rel    chan struct{}
+	status int // 0 / 200: the body is served
+	// bodyAnyStatus: the chunks are served whatever the status is
+	bodyAnyStatus bool
+	down          bool // the connection cannot be made
+	chunks        [][]byte
+	cut           bool // after the chunks the body ends in an error instead of EOF
+	gated         bool
+	yield         bool // free-running: runtime.Gosched() before every chunk
+	ev            chan c14lEv
+	start         chan struct{}
+	rel           chan struct{}
 }
 
 func (s *c14lSrc) body() []byte { return bytes.Join(s.chunks, nil) }
@@ -147,7 +153,9 @@ func (rt *c14lRT) RoundTrip(r *http.Request) (*http.Response, error) {
 		Proto: "HTTP/1.1", ProtoMajor: 1, ProtoMinor: 1, Header: http.Header{}, Request: r,
 		ContentLength: -1,
 	}
-	if st == 200 {
+	if st == 200 || s.bodyAnyStatus {
+		// round 6: a source may send its chunks with any status (206 with a
+		// part of the list, 203 with all of it, 204 with nothing)
 		resp.Body = &c14lBody{src: s}
 	} else {
 		resp.Body = io.NopCloser(strings.NewReader("not here\n"))
@@ -271,6 +279,7 @@ func TestVerifC14Lists(t *testing.T) {
 
 	c14lOverlap(t, out, rnd)
 	c14lSetURL(t, out, rnd)
+	c14lStatus(t, out, rnd)
 }
 
 // ---------------------------------------------------------------- (I)
@@ -780,13 +789,14 @@ func c14lStrs(chunks [][]byte) []string {
 // ---------------------------------------------------------------- (J)
 
 type c14lSource struct {
-	name   string
-	status int
-	down   bool
-	body   func(old []byte) []byte
-	cutAt  func(body []byte) int // >= 0: the body is cut after this many bytes
-	nofile bool                  // the temporary file cannot be created (EMFILE)
-	fails  bool                  // cannot produce a complete new list
+	name     string
+	status   int
+	down     bool
+	body     func(old []byte) []byte
+	cutAt    func(body []byte) int // >= 0: the body is cut after this many bytes
+	cleanEnd bool                  // the cut body ends with a plain EOF (the range of a 206), not a broken connection
+	nofile   bool                  // the temporary file cannot be created (EMFILE)
+	fails    bool                  // cannot produce a complete new list
 }
 
 func c14lSetURL(t *testing.T, out *vfOut, rnd *vfRand) {
@@ -796,6 +806,10 @@ func c14lSetURL(t *testing.T, out *vfOut, rnd *vfRand) {
 		{name: "same-contents", body: func(old []byte) []byte { return append([]byte("#again\n"), old...) }},
 		{name: "no-rules", body: func([]byte) []byte { return []byte("#nothing\n\n!here\n") }},
 		{name: "status-404", status: 404, fails: true},
+		// round 6: 2xx statuses that are not 200, with the body they typically carry
+		{name: "status-206-partial", status: 206, body: good, cutAt: func(b []byte) int { return len(b)/2 + 3 }, cleanEnd: true, fails: true},
+		{name: "status-204-empty", status: 204, body: func([]byte) []byte { return []byte{} }, fails: true},
+		{name: "status-203-complete", status: 203, body: good, fails: true},
 		{name: "host-down", down: true, fails: true},
 		{name: "html", body: func([]byte) []byte { return []byte("<!DOCTYPE html>\n<html><body>captive-portal</body></html>\n") }, fails: true},
 		{name: "binary-char", body: func([]byte) []byte { return []byte("||b1.example^\n||b2\x01.example^\n||b3.example^\n") }, fails: true},
@@ -877,11 +891,11 @@ func c14lSetURL(t *testing.T, out *vfOut, rnd *vfRand) {
 			if src.body != nil {
 				body = src.body(old)
 			}
-			s := &c14lSrc{host: host, status: src.status, down: src.down}
+			s := &c14lSrc{host: host, status: src.status, down: src.down, bodyAnyStatus: src.status != 0 && src.body != nil}
 			sent := body
 			if src.cutAt != nil {
 				sent = body[:src.cutAt(body)]
-				s.cut = true
+				s.cut = !src.cleanEnd
 			}
 			if !(rq.urlChanges && rq.taken) {
 				s.chunks = c14lChunks(r, sent, 1+r.Intn(30))
@@ -910,7 +924,14 @@ func c14lSetURL(t *testing.T, out *vfOut, rnd *vfRand) {
 			d.Close()
 
 			downloads := rq.enb && !(rq.urlChanges && rq.taken) && (rq.urlChanges || !rq.wasEnabled)
-			srcOK := !(src.status != 0 && src.status != 200) && !src.down
+			// the final status of the source as the model gets it (0: no answer)
+			status := 200
+			if src.status != 0 {
+				status = src.status
+			}
+			if src.down {
+				status = 0
+			}
 			var fails []string
 			fail := func(key, format string, a ...any) { fails = append(fails, key+"\x00"+fmt.Sprintf(format, a...)) }
 			same := presentAfter && bytes.Equal(got, old)
@@ -953,13 +974,13 @@ func c14lSetURL(t *testing.T, out *vfOut, rnd *vfRand) {
 			}
 			c := vfCase{
 				Coq: vfApp("CSetUrl", c14lOptData(true, old), vfBool(rq.wasEnabled), vfBool(rq.wasEnabled),
-					vfBool(rq.urlChanges), vfBool(rq.taken), vfBool(rq.enb), vfBool(srcOK), c14lChunkList(s.chunks), vfBool(s.cut),
+					vfBool(rq.urlChanges), vfBool(rq.taken), vfBool(rq.enb), vfN(uint64(status)), c14lChunkList(s.chunks), vfBool(s.cut),
 					vfN(uint64(fault)), vfBool(serr != nil), vfBool(restart), c14lOptData(presentAfter, got)),
 				Nontrivial: true,
 				Classes:    cls,
 				MonitorOK:  len(fails) == 0,
 				Desc: map[string]any{"scenario": name, "allowlist": allow, "was_enabled": rq.wasEnabled, "new_url": newURL, "enabled": rq.enb,
-					"source": src.name, "served": string(sent), "cut": s.cut, "error": fmt.Sprint(serr), "restart": restart,
+					"source": src.name, "status": status, "served": string(sent), "cut": s.cut, "error": fmt.Sprint(serr), "restart": restart,
 					"file_before": string(old), "file_after": string(got), "present_after": presentAfter},
 			}
 			if len(fails) > 0 {
